@@ -233,8 +233,16 @@ impl Listener {
                         errorfds.as_mut_ptr(),
                         &mut timeout,
                     );
-                    if ret != EINTR && ret != EAGAIN {
+                    if ret >= 0 {
                         break;
+                    }
+                    // select() reports an error as -1 and errno; after an error the
+                    // descriptor sets say nothing. An interrupted wait goes on with the
+                    // time that is left (Linux updates `timeout`).
+                    let err = std::io::Error::last_os_error();
+                    match err.raw_os_error() {
+                        Some(e) if e == EINTR || e == EAGAIN => continue,
+                        _ => return Err(err).map_err(map_context!()),
                     }
                 }
                 if !FD_ISSET(fd, readfs.as_mut_ptr()) {
